@@ -20,7 +20,7 @@ tvars == <<ins, outs, flags, l, tid, bad, exposed>>
 Empty == [x \in {} |-> 0]
 Put(f, k, v) == [x \in DOMAIN f \cup {k} |-> IF x = k THEN v ELSE f[x]]
 Del(f, k) == [x \in DOMAIN f \ {k} |-> f[x]]
-Val(j) == [ver |-> j.ver, ph |-> j.phase, fins |-> ToSet(j.fins), val |-> j.val, owner |-> j.owner]
+Val(j) == [ver |-> j.ver, ph |-> j.phase, fins |-> ToSet(j.fins), val |-> j.val, owner |-> j.owner, lab |-> ("lab" \in DOMAIN j /\ j.lab)]
 (* skip / keep: "skipmode" - from that line on the transform function asks to skip every reconcile (SkipReconcileTag): an output  *)
 (* that exists stays as it is (keep = the ids whose output existed IN RUNNING PHASE for a running input at that moment and whose *)
 (* input has stayed running since; an output that was already being torn down then - left over from an earlier incarnation of   *)
@@ -31,7 +31,7 @@ Val(j) == [ver |-> j.ver, ph |-> j.phase, fins |-> ToSet(j.fins), val |-> j.val,
 (* extra: a secondary input kind (qtransform: extra mapped input, secondary rN -> input rN; transform: extra input); the driver's *)
 (* transform is output = 10 * input + secondary of the same id (0 when absent); exts: id -> value of the secondaries              *)
 F0 == [fin |-> FALSE, ignoreTd |-> FALSE, ignoreUntil |-> FALSE, cleanup |-> FALSE, ctrl |-> "", skip |-> FALSE, keep |-> {}, destroyer |-> FALSE, optional |-> FALSE,
-       extra |-> FALSE, exts |-> Empty]
+       extra |-> FALSE, exts |-> Empty, filtered |-> FALSE]
 Image(id) == 10 * ins[id].val + (IF flags.extra /\ id \in DOMAIN flags.exts THEN flags.exts[id] ELSE 0)
 (* cleanup configuration: the dependents of input id are the outputs id and id + 10 *)
 Dependents(os, id) == {o \in DOMAIN os : o % 10 = id}
@@ -44,7 +44,8 @@ Held(o) == "F" \in o.fins
 
 (* is a tearing-down input still treated as running by the controller's options? *)
 (* optional mapping (MapMetadataOptionalFunc of the driver): an input whose value is 3 is not mapped - it has no image *)
-Mapped(i) == ~flags.optional \/ i.val # 3
+(* filtered (transform.WithInputListOptions, label "on" exists): an input without the label is not listed - it has no image either *)
+Mapped(i) == (~flags.optional \/ i.val # 3) /\ (~flags.filtered \/ i.lab)
 TreatedRunning(i) ==
   /\ Mapped(i)
   /\ \/ i.ph = "running"
@@ -99,9 +100,9 @@ Quiet(e) ==
   ELSE IF Judge = "C06" /\ Unconverged # {}
   THEN LET id == IF Unconverged \ exposed # {} THEN CHOOSE x \in Unconverged \ exposed : TRUE ELSE CHOOSE x \in Unconverged : TRUE IN
        Reject(IF flags.ignoreUntil /\ id \notin DOMAIN ins /\ id \in exposed THEN "not-converged-ignore-teardown-orphan"
-              ELSE IF flags.optional /\ id \in DOMAIN ins /\ ~Mapped(ins[id]) /\ ins[id].ph = "tearingDown" /\ flags.ctrl \in ins[id].fins
+              ELSE IF (flags.optional \/ flags.filtered) /\ id \in DOMAIN ins /\ ~Mapped(ins[id]) /\ ins[id].ph = "tearingDown" /\ flags.ctrl \in ins[id].fins
                       /\ ~(id \in DOMAIN outs /\ outs[id].owner = flags.ctrl)
-                   THEN "finalizer-left-on-unmapped-input"
+                   THEN (IF flags.filtered THEN "finalizer-left-on-filtered-out-input" ELSE "finalizer-left-on-unmapped-input")
               ELSE "not-converged",
               [id |-> id, input |-> IF id \in DOMAIN ins THEN ins[id] ELSE "absent"], IF id \in DOMAIN outs THEN outs[id] ELSE "absent")
   ELSE UNCHANGED <<ins, outs, exposed>> /\ Keep
@@ -111,7 +112,8 @@ Next == /\ l <= Len(TraceLog) /\ l' = l + 1
              IF e.ev = "reset" THEN /\ ins' = Empty /\ outs' = Empty /\ tid' = e.tid /\ bad' = FALSE /\ exposed' = {}
                                     /\ flags' = [fin |-> e.fin, ignoreTd |-> e.ignoreTd, ignoreUntil |-> e.ignoreUntil, cleanup |-> e.cleanup, ctrl |-> e.ctrl,
                                                   skip |-> FALSE, keep |-> {}, destroyer |-> ("destroyer" \in DOMAIN e /\ e.destroyer), optional |-> ("optional" \in DOMAIN e /\ e.optional),
-                                                  extra |-> ("extra" \in DOMAIN e /\ e.extra), exts |-> Empty]
+                                                  extra |-> ("extra" \in DOMAIN e /\ e.extra), exts |-> Empty,
+                                                  filtered |-> ("filtered" \in DOMAIN e /\ e.filtered)]
              ELSE IF bad THEN UNCHANGED <<ins, outs, flags, tid, bad, exposed>>
              ELSE CASE e.ev = "w" /\ e.kind = "ext" ->
                          /\ flags' = [flags EXCEPT !.exts = IF e.op = "destroy" THEN Del(@, e.id) ELSE Put(@, e.id, e.v.val)]
